@@ -20,16 +20,18 @@ open VaxisModel.Gen.Keys
 def xtermMods (k : Key) : Nat := k.mods &&& (shiftBit ||| altBit ||| ctrlBit)
 
 /-- The character Shift produces on the key, as far as the event tells: the shifted code, else a
-    one-rune text. 0 = unknown. -/
-def shiftedOf (k : Key) : Int :=
+    one-rune text, else — for a lower-case letter — its upper case. 0 = unknown. -/
+def shiftedOf (u : Uni) (k : Key) : Int :=
   if k.shifted > 0 then k.shifted else match k.text with
     | [c] => c
-    | _ => 0
+    | _ => if u.isLower k.keycode then u.toUpper k.keycode else 0
 
 /-- **XtermDomain**: the chords the xterm legacy encoding can express with a single unambiguous
     report (see `Spec.KeyEnc.xtermLegacy`); explicit and decidable. -/
-def XtermDomain (k : Key) : Bool :=
-  (xtermLegacy k.keycode (xtermMods k) (shiftedOf k) false).isSome
+def XtermDomain (u : Uni) (k : Key) : Bool :=
+  (xtermLegacy k.keycode (xtermMods k) (shiftedOf u k) false).isSome &&
+  -- an event carrying a longer text (composed input) is forwarded as that text, not as a chord
+  decide (k.text.length ≤ 1)
 
 /-- The forwarded key arrives intact: the bytes, parsed by Vaxis's own pipeline, are exactly one
     sequence whose decoded key `k'` matches the original key code and xterm modifiers. -/
